@@ -171,7 +171,9 @@ pub fn run_case(seed: u64, stream: u64, index: u64, cfg: &HistCfg, md: Option<&m
     let nrep = r.range(2, cfg.max_replicas) as usize;
     let mut ids: Vec<u64> = CLIENT_IDS.to_vec();
     r.shuffle(&mut ids);
-    let reps: Vec<Replica> = (0..nrep).map(|i| Replica::new(ids[i], DocCfg::default())).collect();
+    // half of the histories count text offsets in bytes (the default of a Doc), half in UTF-16 units
+    let bytes = r.chance(1, 2);
+    let reps: Vec<Replica> = (0..nrep).map(|i| Replica::new(ids[i], DocCfg { bytes_offsets: bytes, ..DocCfg::default() })).collect();
     let mut w = World { reps, md, out: CaseOut { script: vec![], failures: vec![], disagreements: vec![], stats: BTreeMap::new(), nontrivial: false }, step: 0, seen_pairs: HashMap::new(), itg: vec![] };
     if let Some(md) = w.md.as_mut() { for i in 0..nrep + 1 { md.ask(&format!("D new r{}", i)); md.ask(&format!("ITG new r{}", i)); } }
     let ecfg = edit_cfg(cfg.focus);
@@ -188,8 +190,9 @@ pub fn run_case(seed: u64, stream: u64, index: u64, cfg: &HistCfg, md: Option<&m
         let undelivered: Vec<usize> = (0..msgs.len()).filter(|m| !delivered[i].contains(m)).collect();
         if r.chance(3, 5) || undelivered.is_empty() {
             let mut sc = vec![];
-            let (u1, u2) = if matches!(cfg.focus, Focus::Typing) { typing_txn(&w.reps[i], &mut r, &mut cursors[i], &mut sc, &mut tag) } else { local_txn(&w.reps[i], &mut r, &ecfg, false, 3, &mut sc, &mut tag) };
+            let (u1, u2) = if matches!(cfg.focus, Focus::Typing) { typing_txn(&w.reps[i], &mut r, &mut cursors[i], &mut sc, &mut tag) } else { local_txn(&w.reps[i], &mut r, &ecfg, bytes, 3, &mut sc, &mut tag) };
             w.out.script.push(format!("r{} txn {{{}}}", i, sc.join("; ")));
+            for e in sc.iter().filter(|e| e.starts_with("!!PLACEMENT")) { w.out.failures.push(json!({"property": "C04", "class": "not-placed-where-inserted", "step": w.step, "replica": i, "what": e})); }
             if u1.len() > 1 || u1.len() != u2.len() {
                 w.out.failures.push(json!({"property": "C07", "class": "event-count", "step": w.step, "v1_events": u1.len(), "v2_events": u2.len()}));
             }
